@@ -117,6 +117,11 @@ func c04(r *hx.Run) {
 		e2.run(r, func(placed []fx.Placed) {
 			compareWithModel(r, "recommit", client, pool, placed, delta)
 		})
+		// the same with coordinates that need the full width of uint64 (a recover 2^63 and more after the update it supersedes)
+		e3 := &histEnum{pool: pool, alpha: []string{"U01", "U12", "R0>u0", "R0>u1", "R01", "V01", "D0"}, coords: wideGrid[1:], depth: 3, pubModes: "p", fixed: fixedC}
+		e3.run(r, func(placed []fx.Placed) {
+			compareWithModel(r, "recommit-wide", client, pool, placed, delta)
+		})
 	}
 	r.Extra["deactivated_base_states"] = len(deactStates)
 	r.Extra["recover_base_states"] = len(recoverStates)
